@@ -187,15 +187,19 @@ def prop_scripted(case, r):
                 exp = old if prop_dt is None else limit(prop_dt, old, lim or {}, I['restart_time'] is not None)
                 got = nxt['dt']
                 requested = bool(e and e.get('restart'))
+                cands = [exp]
                 if prop_dt is not None and requested != (I['restart_time'] is not None):
                     # request pending while the limiters ran, then cancelled (budget exhausted): both variants accepted
-                    alt = limit(prop_dt, old, lim or {}, requested)
-                    if abs(got - alt) <= 1e-12 * alt:
-                        exp = alt
-                if abs(got - exp) > 1e-12 * exp:
+                    cands.append(limit(prop_dt, old, lim or {}, requested))
+
+                def fits(c):
+                    if abs(got - c) <= 1e-12 * c:
+                        return True
                     # the spreader may shorten steps to reach Tend (not part of the statement): legal only near the end
-                    overshoot = nxt['time'] + (P + 1) * max(exp, old) > case['Tend'] - 1e-12
-                    r.check(got < exp and overshoot and got >= min(case['dt'], exp) * (1 - 1e-12), 'next-dt', f'block {b + 1}: dt {got!r}, expected {exp!r} (proposal {prop_dt!r}, old {old!r}, limits {lim})')
+                    overshoot = nxt['time'] + (P + 1) * max(c, old) > case['Tend'] - 1e-12
+                    return got < c and overshoot and got >= min(case['dt'], c) * (1 - 1e-12)
+
+                r.check(any(fits(c) for c in cands), 'next-dt', f'block {b + 1}: dt {got!r}, expected {cands!r} (proposal {prop_dt!r}, old {old!r}, limits {lim})')
     # convergence error exactly when a first step asks again with exhausted budget and crashing is configured
     if raised is not None:
         b = len(blocks)  # the block that raised was not snapshotted
